@@ -10,6 +10,7 @@ from petl.util.materialise import cache as petl_cache
 from hypothesis import strategies as st
 
 from pv import catalog, catgen, gen
+from pv import scale
 from pv.core import Sub, Fail, exc_fail
 from pv.probes import Counting, ByteCounting
 
@@ -178,6 +179,11 @@ def _take(view_factory, hdr, block, n, k, which=0, other=None, tail=()):
 def check_stream(case, ctx):
     hdr = list(catalog.H)
     block, k, n1 = case["block"], case["k"], case["n1"]
+    bb = scale.derive(case, odds=40, sizes=[101, 150, 1001, 1100], wide=False)
+    if bb and k >= 1:
+        # at scale: a prefix of more than 100 / 1000 rows (the sources are 500 rows and 100 times longer than that)
+        k, n1 = bb["rows"], bb["rows"] + 500
+        ctx.label("at-scale")
     if "entry" in case:
         e = catalog.get(case["entry"])
         which = STREAMSRC.get(e.name, 0)
